@@ -367,6 +367,35 @@ ABSORBING_HANDLERS = {
 }
 
 
+_BUILTINS = {"max", "min", "len", "tuple", "list", "isinstance", "sum", "any", "all", "sorted", "set", "dict", "range", "zip", "enumerate",
+             "int", "float", "str", "bool", "abs", "frozenset", "type", "getattr", "hasattr"}
+_LIBS = {"np", "numpy", "sympy", "sparse", "scipy", "math", "itertools", "functools"}
+
+
+def _pure_library_block(stmts) -> bool:
+    """No series element can be evaluated inside: only imports, assignments and expressions whose calls go to library modules or
+    builtins, and no subscript of a name (which could be a series)."""
+    for s in stmts:
+        if isinstance(s, (ast.Import, ast.ImportFrom)):
+            continue
+        if not isinstance(s, (ast.Assign, ast.AnnAssign, ast.Expr, ast.Return)):
+            return False
+        for n in ast.walk(s):
+            if isinstance(n, ast.Call):
+                root = n.func
+                while isinstance(root, ast.Attribute):
+                    root = root.value
+                if isinstance(root, ast.Call):
+                    continue  # method of a library result: decided by the inner call
+                if not (isinstance(root, ast.Name) and (root.id in _LIBS or (root.id in _BUILTINS and isinstance(n.func, ast.Name)))):
+                    return False
+            if isinstance(n, ast.Subscript) and isinstance(n.ctx, ast.Load) and isinstance(n.value, (ast.Name, ast.Attribute)):
+                return False
+            if isinstance(n, (ast.Yield, ast.YieldFrom, ast.Await, ast.BinOp)) and isinstance(n, ast.BinOp) and isinstance(n.op, (ast.MatMult,)):
+                return False
+    return True
+
+
 def rule_exceptions_propagate(rep: Report, repo: Repo):
     """Every `try` of the evaluation modules: each handler either re-raises on all of its paths (bare `raise`, or
     `raise X from e`) or is one of the listed absorbing handlers.  A handler that absorbs an exception on the evaluation
@@ -393,6 +422,9 @@ def rule_exceptions_propagate(rep: Report, repo: Repo):
                 where = f"pymablock/{mod}.py:{h.lineno}"
                 if reraises:
                     rep.ok(R, inst + " re-raises on every path", "", where)
+                elif _pure_library_block(t.body):
+                    rep.ok(R, inst + " absorbs an exception of a pure library computation", "the try body reads no series element and calls "
+                           "nothing but library functions and builtins: no element evaluation can be interrupted there", where)
                 elif (mod, q, types) in ABSORBING_HANDLERS:
                     rep.ok(R, inst + " (listed absorbing handler)", ABSORBING_HANDLERS[(mod, q, types)], where)
                 else:
